@@ -153,13 +153,13 @@ Definition run_list_method (mname : name) (l : list value) (args : list value) :
     match l with x :: r => fold_calc op_add x r | [] => Err None end
   else if str_eqb mname n_top then
     match args with
-    | [VInt n] => Ok (VList (if n <? 0 then l else firstn (Z.to_nat n) l))
+    | [VInt n] => Ok (VList (if n <? 0 then l else firstn (Z.to_nat (Z.min n (Z.of_nat (length l)))) l))
     | [VErrText _] => Unsup
     | _ => Err None
     end
   else if str_eqb mname n_skip then
     match args with
-    | [VInt n] => Ok (VList (if n <? 0 then l else skipn (Z.to_nat n) l))
+    | [VInt n] => Ok (VList (if n <? 0 then l else skipn (Z.to_nat (Z.min n (Z.of_nat (length l)))) l))
     | [VErrText _] => Unsup
     | _ => Err None
     end
